@@ -59,6 +59,11 @@ def test_closed_forms():
     ins = Inside(G)
     for n in range(1, 5):
         _expect(abs(ins(("a",) * n) - cat[n - 1] * 0.2 ** (n - 1) * 0.8**n) < 1e-15, "catalan strings")
+    # tiny values must not be mistaken for zero (PCFG p=0.0035: pw(a^4) = 1 - w(a) - w(aa) - w(aaa))
+    p_, q_ = 0.0034843630077637045, 0.9965156370003821
+    G2 = RG(M, "S", ["a"], [(p_, "S", ("S", "S")), (q_, "S", ("a",))])
+    tail = cfgref.total(G2)["S"] - q_ - p_ * q_**2 - 2 * p_**2 * q_**3
+    _expect(abs(cfgref.prefix(G2, ("a",) * 4) - tail) < 1e-15, "prefix with tiny weights")
     # exact: finite language, QQ
     Q = model("QQ")
     g = dict(S="S", V=["a", "b"], rules=[["1/2", "S", ["A", "A"]], ["1/3", "A", ["a"]], ["1/4", "A", ["b"]], ["1/5", "A", []]])
